@@ -118,7 +118,7 @@ equals the number of stored elements, a derived field that is in sync). This is 
 of C01: in a consistent file every `len(...)` refresh is stable. -/
 def actStable (s : Sections) (recPath : List Step) (names : List Nat) (a : RefreshAct) : Prop :=
   ∃ selfRec v, getAt recPath s.root = some selfRec ∧ a.expr.eval (s.env names selfRec) = .ok v ∧
-    getAt (match a.dest with | .self i => recPath ++ [Step.fld i] | .sec sc i => [Step.fld sc, Step.fld i]) s.root = some v
+    getAt (a.dest.path recPath) s.root = some v
 
 theorem applyActs_stable (acts : List RefreshAct) (recPath : List Step) (names : List Nat) (s : Sections)
     (h : ∀ a ∈ acts, actStable s recPath names a) : applyActs acts recPath names s = .ok s := by
@@ -128,7 +128,7 @@ theorem applyActs_stable (acts : List RefreshAct) (recPath : List Step) (names :
   obtain ⟨selfRec, v, h1, h2, h3⟩ := h a ha
   have hs := Aoe.Props.C05.set_get _ s.root v h3
   simp only [h1, h2, bind, Except.bind, pure, Except.pure]
-  cases hd : a.dest <;> simp only [hd] at hs <;> simp [hs, Option.bind, withRoot_root]
+  simp [hs, Option.bind, withRoot_root]
 
 theorem mapM_range'_get {β : Type} (f : Nat → Except Err β) (k n : Nat) (os : List β)
     (h : (List.range' k n).mapM f = .ok os) : ∀ i o, os[i]? = some o → f (k + i) = .ok o := by
@@ -321,5 +321,113 @@ theorem demo2_stable : Stable demo2Classes 3 0 [] demo2Secs := by
 example : commitObj demo2Classes 3 0 [] (.strct [.list [.strct [.int 10, .int 0], .strct [.int 20, .int 1]]]) demo2Secs
     = .ok demo2Secs :=
   commit_construct_id_general demo2Classes 3 0 [] demo2Secs _ demo2_stable (by rfl)
+
+end Aoe.Props.Links
+
+namespace Aoe.Props.Links
+open Aoe Aoe.Codec Aoe.Lens Aoe.Commit
+
+/-! ## what a refresh establishes (C04: stored counts equal the number of stored elements) -/
+
+theorem withRoot_some (s s' : Sections) (v : Val) (h : s.withRoot v = some s') : s'.root = v ∧ s'.names = s.names := by
+  cases v <;> simp [Sections.withRoot] at h
+  subst h; exact ⟨rfl, rfl⟩
+
+/-- after a single refresh action its destination holds the value its `eval` yielded in the state it ran in -/
+theorem applyActs_single (a : RefreshAct) (recPath : List Step) (names : List Nat) (s s' : Sections)
+    (h : applyActs [a] recPath names s = .ok s') :
+    ∃ selfRec v, getAt recPath s.root = some selfRec ∧ a.expr.eval (s.env names selfRec) = .ok v ∧
+      getAt (a.dest.path recPath) s'.root = some v := by
+  simp only [applyActs, List.foldlM, bind, Except.bind] at h
+  cases hg : getAt recPath s.root with
+  | none => simp [hg] at h
+  | some selfRec =>
+    simp only [hg, pure, Except.pure] at h
+    cases he : a.expr.eval (s.env names selfRec) with
+    | error e => simp [he] at h
+    | ok v =>
+      simp only [he] at h
+      refine ⟨selfRec, v, rfl, he, ?_⟩
+      cases hs : setAt (a.dest.path recPath) s.root v with
+      | none => simp [hs, Option.bind] at h
+      | some r =>
+        simp only [hs, Option.bind] at h
+        cases hw : s.withRoot r with
+        | none => simp [hw] at h
+        | some s2 =>
+          simp only [hw, Except.ok.injEq] at h
+          subst h
+          rw [(withRoot_some s s2 r hw).1]
+          exact Aoe.Props.C05.get_set _ s.root v r hs
+
+/-- the `len(x)` refresh: the count written is the number of elements the list `x` of the same record holds -/
+theorem len_refresh_value (γ : Env) (nm : Nat) (l : List Val) (h : γ.lookup (.self nm) = .ok (.list l)) :
+    (Expr.len (.ref (.self nm))).eval γ = .ok (.int l.length) := by
+  simp [Expr.eval, h, bind, Except.bind, lenOf, pure, Except.pure]
+
+/-- **stored count = number of stored elements** after the commit of a counted list: if the refresh of a list link is the
+usual `count := len(list)` and it runs (the commit succeeds), the count retriever holds the length of the list as
+it is stored at that moment -/
+theorem count_equals_length (i nm : Nat) (recPath : List Step) (names : List Nat) (s s' : Sections) (selfRec : Val)
+    (l : List Val) (hrec : getAt recPath s.root = some selfRec)
+    (hl : (s.env names selfRec).lookup (.self nm) = .ok (.list l))
+    (h : applyActs [{ dest := .self i, expr := .len (.ref (.self nm)) }] recPath names s = .ok s') :
+    getAt (recPath ++ [Step.fld i]) s'.root = some (.int l.length) := by
+  obtain ⟨sr, v, h1, h2, h3⟩ := applyActs_single _ recPath names s s' h
+  rw [hrec] at h1
+  cases h1
+  rw [len_refresh_value _ nm l hl] at h2
+  cases h2
+  exact h3
+
+end Aoe.Props.Links
+
+namespace Aoe.Props.Links
+open Aoe Aoe.Codec Aoe.Lens Aoe.Commit
+
+/-! ## pull after push (C03 at the link level) -/
+
+/-- what a plain link pushed is what the same link pulls afterwards -/
+theorem pull_push_same (rc : Nat → List Nat → Val → Sections → Except Err Sections) (rp : Nat → List Nat → Except Err Val)
+    (hist : List Nat) (s s' : Sections) (a : Nat) (path : List PStep) (names : List Nat) (v : Val)
+    (h : pushLink rc hist s ((a, .plain path [] names), v) = .ok s') :
+    pullLink rp hist s' (a, .plain path [] names) = .ok v := by
+  simp only [pushLink, bind, Except.bind] at h
+  cases hr : resolve hist path with
+  | none => simp [hr] at h
+  | some p =>
+    simp only [hr, pure, Except.pure] at h
+    cases hs : setAt p s.root v with
+    | none => simp [hs, Option.bind] at h
+    | some r =>
+      simp only [hs, Option.bind] at h
+      cases hw : s.withRoot r with
+      | none => simp [hw] at h
+      | some s2 =>
+        simp only [hw, applyActs, List.foldlM, pure, Except.pure, Except.ok.injEq] at h
+        subst h
+        have hg := Aoe.Props.C05.get_set p s.root v r hs
+        simp only [pullLink, hr, Option.bind, (withRoot_some s s2 r hw).1, hg, pure, Except.pure]
+
+/-- frame: pushing one plain link does not change what another plain link pulls when their resolved paths diverge
+(different fields, or the same field of different list elements) -/
+theorem pull_push_frame (rc : Nat → List Nat → Val → Sections → Except Err Sections) (rp : Nat → List Nat → Except Err Val)
+    (hist hist' : List Nat) (s s' : Sections) (a b : Nat) (path path' : List PStep) (names names' : List Nat) (v : Val)
+    (p p' : List Step) (hp : resolve hist path = some p) (hp' : resolve hist' path' = some p')
+    (hd : Aoe.Props.C05.Diverge p p')
+    (h : pushLink rc hist s ((a, .plain path [] names), v) = .ok s') :
+    pullLink rp hist' s' (b, .plain path' [] names') = pullLink rp hist' s (b, .plain path' [] names') := by
+  simp only [pushLink, bind, Except.bind, hp, pure, Except.pure] at h
+  cases hs : setAt p s.root v with
+  | none => simp [hs, Option.bind] at h
+  | some r =>
+    simp only [hs, Option.bind] at h
+    cases hw : s.withRoot r with
+    | none => simp [hw] at h
+    | some s2 =>
+      simp only [hw, applyActs, List.foldlM, pure, Except.pure, Except.ok.injEq] at h
+      subst h
+      have hf := Aoe.Props.C05.frame p p' s.root v r hd hs
+      simp only [pullLink, hp', Option.bind, (withRoot_some s s2 r hw).1, hf]
 
 end Aoe.Props.Links
